@@ -329,6 +329,19 @@ Proof.
 Qed.
 Print Assumptions C12_oneof_members.
 
+(* ... and over the compiler with its front checks and link step ([compile_members]): no
+   hypothesis on patterns / uniqueItems of the options is left *)
+Theorem C12_oneof_members_full :
+  forall re_ok re_match pat_sem, engine_ok re_ok re_match pat_sem ->
+  forall env ds os fvs,
+    wf_env env = true ->
+    forallb member_decl ds = true ->
+    compile_members re_ok env ds = Ok os -> typed_obj ds fvs = true ->
+    (validate_obj re_ok re_match (defined_numbers env) os fvs = VAccept <-> member_obj pat_sem env ds fvs) /\
+    (validate_obj re_ok re_match (defined_numbers env) os fvs = VReject <-> ~ member_obj pat_sem env ds fvs).
+Proof. exact c12_compiled_members. Qed.
+Print Assumptions C12_oneof_members_full.
+
 Theorem C12_oneof_spec_decided : forall re_match pat_sem,
   (forall p s, re_match p s = true <-> pat_sem p s) ->
   forall env ds fvs, member_objb re_match env ds fvs = true <-> member_obj pat_sem env ds fvs.
